@@ -59,6 +59,7 @@ type HarnessSpec struct {
 	MaxPaths    map[string]int `json:"max_paths,omitempty"`
 	BudgetS     map[string]int `json:"budget_s,omitempty"`
 	ReverseMaps bool           `json:"reverse_maps,omitempty"`
+	CellRaces   bool           `json:"cell_races,omitempty"`
 	// Unwind: per-path visit bound of one symbolic conditional jump (default 64).
 	Unwind int `json:"unwind,omitempty"`
 	// OnlyLabels: when set, only violations whose label contains one of these
@@ -766,7 +767,7 @@ func cmdRun(args []string) int {
 		cfg := &interp.Config{
 			Prog: ld.prog, Pkg: pkg, Fn: h.Fn, Sizes: &types.StdSizes{WordSize: 8, MaxAlign: 8},
 			SolverName: *solver, TimeoutMs: *timeoutMs, Workers: *workers, Seed: seed, Trace: *trace,
-			Tier: tierN, ReverseMaps: h.ReverseMaps, Progress: true, Unwind: h.Unwind,
+			Tier: tierN, ReverseMaps: h.ReverseMaps, CellRaces: h.CellRaces, Progress: true, Unwind: h.Unwind,
 		}
 		if n := h.MaxPaths[*tier]; n > 0 {
 			cfg.MaxPaths = n
